@@ -252,6 +252,8 @@ func checkC10(c *Ctx, r *Report) {
 		Why: "an entity is empty only if it has neither own diagnostics nor children (a non-empty one is never dropped from the result)"})
 
 	ruleEarlyExitInventory(c, r, "C10.b", 8, "core/validators")
+	// an internal failure of validation is a failure of the command, never a quietly shorter list of diagnostics
+	ruleErrDrops(c, r, "C10.f", "core/validators", "core/pipeline")
 	ruleNoCompaction(c, r, "C10.b", "core/validators")
 	checkDiagnosticsAppendOnly(c, r, "C10.a")
 	// every element filter in these packages is a reviewed one
